@@ -125,6 +125,16 @@ def run_program(tid: int, program: list, pool: list, hook, out: list) -> None:
                 if cc:
                     cc()
             continue
+        if op[0] == "buildbad":
+            # deriving a reader / writer for a class whose description is inconsistent fails; that failure
+            # must leave nothing behind (no lock held, no half-built cache entry)
+            for f in (entity_reader, entity_writer):
+                try:
+                    f(bad_class())
+                    out.append({"note": "bad_class_accepted", "id": f"t{tid}o{oi}"})
+                except BaseException:  # noqa: BLE001
+                    out.append({"note": "injected", "id": f"t{tid}o{oi}", "kind": "buildbad"})
+            continue
         kind, ci, vi, fail_at = op
         ent = pool[ci]
         if kind == "wbad":
@@ -182,6 +192,27 @@ def run_program(tid: int, program: list, pool: list, hook, out: list) -> None:
             out.append(case)
 
 
+_BAD = []
+
+
+def bad_class():
+    """An entity class with a tagged field in a non-flexible version (the library refuses to derive codecs)."""
+    if not _BAD:
+        import dataclasses
+        from kio.static.constants import EntityType
+        from kio.static.primitive import i16, i32
+
+        @dataclasses.dataclass(frozen=True, slots=True, kw_only=True)
+        class BadEntity:
+            __type__ = EntityType.nested
+            __version__ = i16(0)
+            __flexible__ = False
+            a: i32 = dataclasses.field(metadata={"kafka_type": "int32"})
+            t: i32 = dataclasses.field(metadata={"kafka_type": "int32", "tag": 0}, default=i32(0))
+        _BAD.append(BadEntity)
+    return _BAD[0]
+
+
 def run_threads(programs: list[list], runs: list[int], pool: list) -> dict:
     bodies = [(lambda hook, out, tid=tid, prog=prog: run_program(tid, prog, pool, hook, out))
               for tid, prog in enumerate(programs)]
@@ -196,7 +227,7 @@ def run_bodies(bodies: list, runs: list[int]) -> dict:
     if n == 1:
         out: list = []
         bodies[0](lambda: None, out)
-        return {"cases": out, "points": 0, "switches": 0, "abandoned": False}
+        return {"cases": out, "points": 0, "switches": 0, "abandoned": False, "stuck": False}
     baton = Baton(n, runs)
     outs = [[] for _ in range(n)]
     ids = {}
@@ -230,7 +261,7 @@ def run_bodies(bodies: list, runs: list[int]) -> dict:
         t.join(60)
     stuck = any(t.is_alive() for t in threads)
     return {"cases": [c for o in outs for c in o], "points": baton.points, "switches": baton.switches,
-            "abandoned": baton.abandoned or stuck}
+            "abandoned": baton.abandoned or stuck, "stuck": stuck}
 
 
 def in_child(fn, timeout: float = 90.0):
@@ -297,7 +328,13 @@ def _sf(name, kt, tag=-1, hasd=False, dflt=None):
 
 # two DIFFERENT entity classes with the same __module__ and __qualname__ (a class produced twice by a
 # factory, or redefined): a cache keyed by name instead of by class conflates them
+_BASE = {"name": "BaseEntity", "flex": True, "fields": [_sf("a", "int32"), _sf("t", "int16", 0, True, {"int": 7})]}
+# ... and an entity class derived from another one (its fields extend the base's): whatever is cached for
+# the base must not be found for the derived class.  The twins stay the LAST two entries.
 SYNTH_POOL = [
+    ("<synth>", _BASE),
+    ("<synth>", {"name": "DerivedEntity", "flex": True, "base": _BASE,
+                 "fields": _BASE["fields"] + [_sf("extra", "string"), _sf("u", "int8", 1, True, {"int": 3})]}),
     ("<synth>", {"name": "Twin", "flex": True, "fields": [_sf("a", "int32"), _sf("t", "int16", 0, True, {"int": 7})]}),
     ("<synth>", {"name": "Twin", "flex": False, "fields": [_sf("s", "string"), _sf("a", "int8")]}),
 ]
